@@ -389,6 +389,21 @@ func checkC08(c *hx.Checker) {
 		}
 	}
 	// larger shapes beyond the exhaustive box
+	// Concat of two inputs: ALL ordered pairs of shapes of Box(rank 1..3, extents {1,2,3}) x every axis (valid exactly
+	// when ranks agree and every off-axis extent agrees; e.g. (2,2,3) with (1,3,2) has matching element counts per
+	// outermost slice and must still be refused)
+	{
+		cb := ref.Box(1, 3, []int{1, 2, 3})
+		for _, sa := range cb {
+			for _, sb := range cb {
+				a, b := ref.Distinct(ref.F32, sa), ref.Fill(ref.F32, sb, func(i int) float64 { return float64(100 + i) })
+				for ax := -len(sa); ax < len(sa); ax++ {
+					exp, err := ref.Concat([]*ref.T{a, b}, ax)
+					add("Concat", []hx.Attr{hx.AInt("axis", int64(ax))}, []*ref.T{a, b}, exp, err, true, "op", nil, fmt.Sprintf("pair %v axis=%d", sb, ax), "all-shape-pairs")
+				}
+			}
+		}
+	}
 	// extreme integers as axis / perm / index / step values
 	for _, sh := range [][]int{{2, 3}, {3}, {1, 2, 2}} {
 		data := ref.Distinct(ref.F32, sh)
